@@ -52,6 +52,20 @@ def run_variant(v: Dict) -> Dict:
             r = subprocess.run(['patch', '-R', '-p1', '--no-backup-if-mismatch', '-s', '-d', copy], input=patch, capture_output=True, text=True)
             if r.returncode != 0:
                 return {**v, 'status': 'SKIP', 'detail': 'reverse patch does not apply: ' + (r.stdout + r.stderr)[:200], 'wall': time.time() - t0}
+        for mv in v.get('moves', []):
+            # code motion: cut a top-level definition out of one module into another (new) one and import it back
+            import ast as _ast
+            src_path = os.path.join(copy, mv['from'])
+            text = open(src_path).read()
+            node = [n for n in _ast.parse(text).body if getattr(n, 'name', None) == mv['name']][0]
+            lines = text.split('\n')
+            first = min([node.lineno] + [d.lineno for d in getattr(node, 'decorator_list', [])]) - 1
+            cut = lines[first:node.end_lineno]
+            modto = mv['to'][:-3].replace('/', '.')
+            lines[first:node.end_lineno] = [f"from {modto} import {mv['name']}"]
+            open(src_path, 'w').write('\n'.join(lines))
+            with open(os.path.join(copy, mv['to']), 'a') as f:
+                f.write(mv.get('header', '') + '\n'.join(cut) + '\n')
         for ed in v.get('edits', []):
             path = os.path.join(copy, ed['file'])
             s = open(path).read()
